@@ -373,6 +373,50 @@ def runProg {σ : Type} (c : Cfg) (sc : Scanner σ) : List (List Op) → Stream 
     let r := runProg c sc qs p.2
     (p.1 :: r.1, r.2)
 
+/-! ## direct-style reading of the built-ins
+
+  What a goal delivers and the stream it hands to its continuation.  `Properties/C19.lean` proves that
+  the continuation-passing definitions above are exactly this, i.e. that in the repaired code nothing
+  of a goal's stream handling happens after its continuation has started. -/
+
+def charRes : Rd (Nat × Nat) → Result
+  | .ok d => if d.1 = runeError then .err .reprChar else .char d.1
+  | .eof => .eof
+  | .err e => .err (charErr e)
+
+def byteRes : Rd Nat → Result
+  | .ok b => .byte b
+  | .eof => .eofByte
+  | .err e => .err (byteErr e)
+
+def termRes : ScanEnd → Result
+  | .endOfFile => .eof
+  | .done (.term t) => .term t
+  | .done .syntaxErr => .err .syntax
+  | .ioErr e => .err (termErr e)
+  | .outOfFuel => .err .other
+
+def stepOp {σ : Type} (c : Cfg) (sc : Scanner σ) : Op → Stream → Result × Stream
+  | .getChar, s => let p := readRune c s; (charRes p.1, p.2)
+  | .peekChar, s => let p := readRune c s; (charRes p.1, unreadRune c p.2)
+  | .getByte, s => let p := readByte c s; (byteRes p.1, p.2)
+  | .peekByte, s => let p := readByte c s; (byteRes p.1, unreadByte c p.2)
+  | .readTerm, s =>
+    let p := scanLoop c sc (c.src.length + 2) sc.init s
+    (termRes p.1, match p.1 with | .endOfFile => p.2 | .outOfFuel => p.2 | _ => unreadRune c p.2)
+  | .atEnd, s => (.bool (decide (s.endOfStream ≠ .not)), s)
+  | .propPos, s => (.pos s.position, s)
+  | .propEos, s => (.eos s.endOfStream, s)
+
+/-- hand a goal's result to its continuation; an error ends the conjunction -/
+def andThen (p : Result × Stream) (k : Cont) : List Result × Stream :=
+  if p.1.isErr then ([p.1], p.2) else emit p.1 k p.2
+
+/-- a conjunction, goal after goal -/
+def seqConj {σ : Type} (c : Cfg) (sc : Scanner σ) : List Op → Stream → List Result × Stream
+  | [], s => ([], s)
+  | o :: os, s => andThen (stepOp c sc o s) (seqConj c sc os)
+
 /-! ## the pinned shape of the peeks (D17), kept to state the defect -/
 
 namespace Deferred
